@@ -62,9 +62,47 @@ REGISTRY = {
             'no file-system or crash fault applies: these operations touch no file (fault kind used: rng-advance, refused operations)',
         ],
     },
+    'C04': {
+        'world': 'like', 'profile': '', 'faulty': False,
+        'sessions': {'quick': 2500, 'thorough': 40000},
+        'budget': {'quick': 90, 'thorough': 1500},
+        'rule': 'One case = one seeded session on one data set and model: objects built with different thread counts '
+                '(1..N+3 and 0) and row permutations, likelihood / derivative / simulation calls at shared parameter '
+                'points, row partitions whose values are added, per-observation evaluations, and history operations '
+                '(null likelihood, unrelated evaluation, quick estimation, bootstrap estimation, change of initial '
+                'values) that must not matter. Distinct = distinct sha256 of (operation kinds, settings, memo size). '
+                'Non-trivial = at least 3 comparisons between distinct (T, permutation/partition) settings.',
+        'components': {'real': REAL, 'stub': ['mp.cpu_count']},
+        'assumptions': [
+            'A3: the table is not mutated between the construction of a BIOGEME object and its use',
+            'interleaving of engine threads is not scheduled (external compiled wheel, no seam); T, row order and partition are',
+            'the reference value of each observation is computed in Python from the mathematical definition of the generated model family',
+        ],
+    },
+    'C07': {
+        'world': 'like', 'profile': 'est', 'faulty': False,
+        'sessions': {'quick': 1800, 'thorough': 30000},
+        'budget': {'quick': 100, 'thorough': 1500},
+        'rule': 'One case = one seeded session of estimations on one concave problem (ridge-penalised logit or quadratic) '
+                'with a generated bound plan (none / wide / active at the optimum / one-sided): every algorithm name, '
+                'with and without bootstrap and saved iterations, on fresh and previously used objects, followed by '
+                'recomputation. Distinct = distinct sha256 of (operation kinds, settings). Non-trivial = at least 2 estimations.',
+        'components': {'real': REAL, 'stub': ['mp.cpu_count']},
+        'assumptions': [
+            'partial: non-concave models, convergence failures and the optimiser library internals are out of scope',
+            'stationarity is judged with a finite-difference gradient of the reference likelihood and 10x the default tolerance',
+            'algorithms that ignore bounds (TR-*, LS-*) are compared with the bounded ones only when no bound is planned active',
+        ],
+    },
 }
 
 LEVEL_TEXT = {
+    'C04': 'Seeded search over (thread count, row permutation, partition, history) schedules the Python layer controls; '
+           'every value is compared with a Python reference of the weighted sum and with every other setting at the '
+           'same parameter point. Sampling, not proof; engine thread interleaving itself is not scheduled.',
+    'C07': 'Partial. Seeded search over estimation histories (algorithm, bounds, bootstrap, saved iterations, reuse of '
+           'objects): what an estimation reports is recomputed by the same and by a fresh object and by a reference '
+           'likelihood; stationarity and cross-algorithm agreement are sampled as differential re-runs.',
     'C13': 'Seeded search over operation histories on one mutable table (with index gaps, shuffled, offset and duplicated '
            'index labels, contiguous and non-contiguous groups); after every operation the real table is compared '
            'cell by cell with a row-list reference model and every returned frame (folds, resamples, extracts, flat '
@@ -82,8 +120,6 @@ LEVEL_TEXT = {
 NOT_APPLICABLE = {
     'C01': 'not yet built in this tree (planned: W-eval history clause)',
     'C03': 'not yet built in this tree (planned: by-name store histories)',
-    'C04': 'not yet built in this tree (planned: W-like)',
-    'C07': 'not yet built in this tree (planned: W-like estimation profile)',
     'C09': 'not yet built in this tree (planned: W-panel)',
     'C10': 'not yet built in this tree (planned: W-eval draws profile)',
     'C12': 'not yet built in this tree (planned: W-eval fault profile)',
